@@ -11,9 +11,14 @@ MAXSZ = (1 << 64) - 1
 # ------------------------------------------------------------------------------- helpers
 def loop_of(fn, call_name):
     """the loop of fn whose body contains a call of `call_name` (erased)"""
-    for l in cfg.loops(fn):
+    ls = cfg.loops(fn)
+    for l in ls:
         if cfg.events_in_blocks(fn, l["body"] | {l["head"]}, lambda e: e["e"] == "call" and qe(e) == call_name):
             return l
+    # the call the loop is usually recognised by may be exactly what a change removed: a function with a
+    # single loop is unambiguous
+    if len(ls) == 1:
+        return ls[0]
     return None
 
 
